@@ -183,8 +183,18 @@ def _get_as_subscript(expr, step):
 
 
 def _is_forward(ctx, module, step, expanded, key_param, fwd_args, fwd_kwargs, method_param):
-    if expanded is not None:
-        expanded = _get_as_subscript(expanded, step)
+    ok, why = _is_forward_core(ctx, module, step, expanded, key_param, fwd_args, fwd_kwargs, method_param)
+    if not ok and expanded is not None:
+        # the .get + None-test spelling of the membership guards
+        rewritten = _get_as_subscript(expanded, step)
+        if rewritten is not expanded:
+            ok2, why2 = _is_forward_core(ctx, module, step, rewritten, key_param, fwd_args, fwd_kwargs, method_param)
+            if ok2:
+                return ok2, why2
+    return ok, why
+
+
+def _is_forward_core(ctx, module, step, expanded, key_param, fwd_args, fwd_kwargs, method_param):
     if not isinstance(expanded, ast.Call) or is_S(expanded):
         return False, ("protocol method returns " + (U(expanded) if expanded is not None else "None")
                        + " instead of <registry>[callable](*inputs, **kwargs)")
